@@ -158,7 +158,7 @@ func genRuleRegexAtom(r *rng, d int) string {
 			parts[i] = genRuleRegexSeq(r, d-1, 1+r.n(2))
 		}
 		open := "("
-		if r.chance(1, 5) {
+		if r.chance(1, 12) {
 			open = "(?:"
 		}
 
@@ -185,7 +185,7 @@ func genRuleRegexSeq(r *rng, d, n int) string {
 			a := r.n(3)
 			sb.WriteString(fmt.Sprintf("{%d,%d}", a, a+r.n(3)))
 		case 5:
-			if r.chance(1, 3) {
+			if r.chance(1, 6) {
 				sb.WriteString("?")
 			}
 		}
@@ -199,7 +199,7 @@ func genRuleRegexSeq(r *rng, d, n int) string {
 func genRegexRule(r *rng) (f *rules.NetworkRule) {
 	for {
 		var re string
-		switch r.n(10) {
+		switch r.n(12) {
 		case 0:
 			re = pick(r, []string{`foo|barbaz`, `a\dvert`, `ba\x41nner`, `ab*cd`, `bad{0,2}ge`, `(foo|bar)baz`, `(ads){0,2}track`,
 				`banner{2,}`, `foo\.bar\d+`, `ad[0-9]+banner`, `x+yz+`, `(pixel)+\.gif`, `img(\/ads){1,}x`, `\bads\b`, `stat\Bistics`,
